@@ -65,7 +65,11 @@ class Worker:
         open(self.out, "w").close()
         wdir = os.path.join(self.scratch, "cwd-%s" % self.wid)
         os.makedirs(wdir, exist_ok=True)
-        cmd = [
+        pre = []
+        if self.flavour == "vg":
+            # valgrind memcheck over the plain build: uninitialised-value use and invalid accesses in the native code
+            pre = ["valgrind", "-q", "--error-limit=no", "--leak-check=no", "--num-callers=30", "--fullpath-after=", "--log-file=%s.%%p" % self.env["WV_SANLOG"]]
+        cmd = pre + [
             build.PY,
             "-m",
             "wv.worker",
@@ -196,6 +200,8 @@ def run_check(cid, tier="quick", replay=None, only=None):
     overlays = {}
     try:
         lanes = mod.lanes(tier)  # list of (lane_name, flavour, ncases)
+        if os.environ.get("WV_ONLY_LANES"):  # development aid: run a subset of the lanes (required counters may then be missing)
+            lanes = [l for l in lanes if l[0] in os.environ["WV_ONLY_LANES"].split(",")]
         if replay:
             with open(replay) as fh:
                 rp = json.load(fh)
@@ -205,7 +211,7 @@ def run_check(cid, tier="quick", replay=None, only=None):
         try:
             for _, flavour, _ in lanes:
                 if flavour not in overlays:
-                    overlays[flavour] = build.overlay(flavour, os.path.join(scratch, "ovl-" + flavour))
+                    overlays[flavour] = build.overlay("plain" if flavour == "vg" else flavour, os.path.join(scratch, "ovl-" + flavour))
         except build.BuildError as e:
             print("INCONCLUSIVE property=%s build failed: %s" % (cid, str(e)[-2000:]))
             return 2
@@ -237,6 +243,9 @@ def run_check(cid, tier="quick", replay=None, only=None):
                 if flavour == "san":
                     e.update(build.san_env(os.path.join(scratch, "san-%s-%d" % (lane, k))))
                     e["WV_SANLOG"] = os.path.join(scratch, "san-%s-%d" % (lane, k))
+                elif flavour == "vg":
+                    e["PYTHONMALLOC"] = "malloc"
+                    e["WV_SANLOG"] = os.path.join(scratch, "vg-%s-%d" % (lane, k))
                 w = Worker(cid, tier, seed, lane, flavour, part, e, scratch, "%s%d" % (lane, k))
                 workers.append(w)
         for w in workers:
@@ -244,7 +253,7 @@ def run_check(cid, tier="quick", replay=None, only=None):
         alive = list(workers)
         while alive:
             time.sleep(0.1)
-            alive = [w for w in alive if not w.poll(watchdog)]
+            alive = [w for w in alive if not w.poll(watchdog * (10 if w.flavour == "vg" else 1))]
         # aggregate
         results = []
         crashes = []
